@@ -23,9 +23,11 @@ Definition aws_model (c : aws_case) : list acall * Z * Z * Z :=
 
 Definition aws_obs (c : aws_case) : list acall * Z * Z * Z := (ac_obs_calls c, ac_obs_class c, ac_obs_tries c, ac_obs_desired c).
 
+(* what the provider DID is compared (requests that change the cloud, in order), with the result class and the provider's memory;
+   read-only calls (DescribeAutoScalingGroups, DescribeInstances) are judged by the property checkers where they matter *)
 Definition aws_eqb (x y : list acall * Z * Z * Z) : bool :=
   let '(c1, r1, t1, d1) := x in let '(c2, r2, t2, d2) := y in
-  list_eqb acall_eqb c1 c2 && (r1 =? r2) && (t1 =? t2) && (d1 =? d2).
+  list_eqb acall_eqb (filter acall_is_write c1) (filter acall_is_write c2) && (r1 =? r2) && (t1 =? t2) && (d1 =? d2).
 
 Definition is_increase (c : aws_case) : bool := match ac_op c with OpIncrease _ => true | _ => false end.
 Definition is_delete (c : aws_case) : bool := match ac_op c with OpDelete _ => true | _ => false end.
